@@ -206,7 +206,9 @@ Definition bytes_times (p : bytes) (n : Z) : bytes := concat (repeat p (Z.to_nat
 
 (* f.read(n) and ser_read(f, n) on the stream b: result and the stream afterwards *)
 Definition py_read (n : Z) (b : bytes) : bytes * bytes :=
-  if n <? 0 then (b, []) else (firstn (Z.to_nat n) b, skipn (Z.to_nat n) b).
+  if n <? 0 then (b, [])
+  else if lenZ b <=? n then (b, [])        (* no more than what is there (and no huge unary count) *)
+  else (firstn (Z.to_nat n) b, skipn (Z.to_nat n) b).
 Definition ser_read_s (n : Z) (b : bytes) : res bytes * bytes :=
   if n >? MAX_SIZE then (Err SerErr, b)
   else let rr := py_read n b in
